@@ -81,6 +81,7 @@ CLAUSE_PROPERTY = {
     "LD_Counters": "C08",
     "LD_Rng": "C09",
     "LD_Known": None,
+    "AC_Stable": "C17",
     "PO_EqualLen": "C12",
     "PO_Rows": "C12",
     "PO_LogwRows": "C12",
